@@ -187,6 +187,32 @@ def damagePRAM (c : PramCurve α) (rows : List (Row α)) : LifeResult α :=
 def isLifeInfinite (c : PramCurve α) (rows : List (Row α)) : Bool :=
   rows.all fun r => r.run != 2 || decide (r.P ≤ c.PD)
 
+/-! ### several assessment points at once (the `groupby("assessment_point_index")` glue)
+
+The recorder delivers the collective hysteresis-major: for every hysteresis one row per assessment point
+(`MultiIndex.from_product([range(n_hystereses), range(n_points)])`).  A table is therefore the flat row list in
+that order; `chunk` cuts it into the hysteresis blocks, `pointRows k` takes the `k`-th row of every block (what
+`groupby("assessment_point_index")` hands to `cumsum` / `sum` / `searchsorted` for point `k`), and a curve given
+per point (`P_RAM_Z`, `P_RAM_D` Series; `_initialize_P_RAM_Z_index` tiles it block by block) is used for its
+own point. -/
+
+/-- cut a flat list into consecutive blocks of length `n` (`fuel` = an upper bound of the number of blocks) -/
+def chunk {β : Type} (n : Nat) : Nat → List β → List (List β)
+  | 0, _ => []
+  | _, [] => []
+  | fuel+1, l => l.take n :: chunk n fuel (l.drop n)
+
+/-- the rows of assessment point `k`: the `k`-th row of every hysteresis block -/
+def pointRows {β : Type} (k : Nat) (blocks : List (List β)) : List β :=
+  blocks.filterMap (fun b => b[k]?)
+
+/-- `DamageCalculatorPRAM` on a table with `curves.length` assessment points: lifetime result and
+`is_life_infinite` per point, in the order of the points. -/
+def damagePRAMBatch (curves : List (PramCurve α)) (flat : List (Row α)) : List (LifeResult α × Bool) :=
+  let blocks := chunk curves.length flat.length flat
+  curves.zipIdx.map fun ck =>
+    (damagePRAM ck.1 (pointRows ck.2 blocks), isLifeInfinite ck.1 (pointRows ck.2 blocks))
+
 /-! ### safety index and load safety factors -/
 
 /-- `compute_beta` after the root search: `-result.x[0] / sigma` with `sigma = 1`. -/
@@ -221,6 +247,13 @@ def maxAbsFrom (m : α) : List α → α
 def maxAbs : List α → α
   | [] => 0.0
   | x :: xs => maxAbsFrom (Transc.abs x) xs
+
+/-- `maximum_absolute_load` of a mesh (`abs().groupby("node_id").max()`): one value per node; `cols[k]` is the
+load history of node `k`. -/
+def maxAbsPerNode (cols : List (List α)) : List α := cols.map maxAbs
+
+/-- … and without `max_load_independently_for_nodes`: `L_max.max()` of the per-node values. -/
+def maxAbsMesh (cols : List (List α)) : α := maxAbs (maxAbsPerNode cols)
 
 /-- `fkm_safety_normal_from_stddev.gamma_L`, eq. (2.3-5), given `L_max`. -/
 def gammaLNormal (PA PL sL Lmax : α) : Option α :=
